@@ -1908,20 +1908,21 @@ where
                         }
                     }
                     _ => {
-                        // Unusual case of multiple groups sharing a name: the backref should try each in turn.
-                        // Lower to alternations of backreferences. Reverse to keep it right-associative: a | (b | (c | d))...
+                        // Unusual case of multiple groups sharing a name: the backreference refers to
+                        // whichever of them participated. Same-named groups sit in different alternatives,
+                        // so at most one of them is set at any time, and a backreference to an unset
+                        // group matches the empty string: the concatenation of the backreferences to all
+                        // of them is exactly "the one that is set". (An alternation would be wrong: its
+                        // first arm succeeds with the empty string whenever the first group is unset.)
                         let icase = self.flags.icase;
-                        let backrefs =
-                            group_indices
-                                .iter()
-                                .rev()
-                                .map(|group_index| ir::Node::BackRef {
-                                    group: *group_index + 1,
-                                    icase,
-                                });
-                        backrefs
-                            .reduce(|right, left| ir::Node::Alt(Box::new(left), Box::new(right)))
-                            .unwrap()
+                        let backrefs = group_indices
+                            .iter()
+                            .map(|group_index| ir::Node::BackRef {
+                                group: *group_index + 1,
+                                icase,
+                            })
+                            .collect();
+                        make_cat(backrefs)
                     }
                 };
                 Ok(node)
